@@ -723,7 +723,7 @@ theorem mainLoop_spec : ∀ (n : Nat) (p : P) (ops : List (List UInt8)), p.oof =
                         | some e => exact ho2
                         | none => exact recur p2 _ lt2.le lt2.2
               · simp only [hte, Bool.false_eq_true, if_false]
-                exact ho1
+                split <;> exact ho1
 
 omit hnum in
 /-- `skipBOM` reads at most three bytes and puts at most one back -/
